@@ -706,6 +706,12 @@ func TestPubSubStep(t *testing.T) {
 			add("leave", 2, m.ruleLeave)
 			add("send", 3, m.ruleSend)
 			add("gatedLeave", 2, m.ruleGatedLeave)
+			add("advance", 1, func(t *rapid.T) { // time passes while nothing else happens: ChanPubSub has no notion of time
+				d := rapid.SampledFrom([]time.Duration{time.Millisecond, 3 * time.Second, 24 * time.Hour}).Draw(t, "advance")
+				time.Sleep(d)
+				m.tr("advance(%v)", d)
+				m.step()
+			})
 			add("observe", 1, func(*rapid.T) { m.step() }) // always enabled (rapid gives up when every drawn action skips)
 			t.Repeat(vkit.NoStarve(acts, nil))
 			// ---- teardown: finish the Send in flight, everybody leaves
